@@ -287,6 +287,12 @@ def gen_filter_for(rng, node, parent, used):
         if kw not in used:
             break
     used.add(kw)
+    return filter_for_attr(rng, attr, suffix, v)
+
+
+def filter_for_attr(rng, attr, suffix, v):
+    """the keyword attr+suffix with a value that a task whose attribute is `v` satisfies"""
+    kw = attr + suffix
     if v is None:
         if suffix == '_is_none_':
             return [kw, ['v', vb(True)]]
@@ -329,6 +335,39 @@ def gen_filter_for(rng, node, parent, used):
     if suffix == '_not_like_':
         return [kw, ['v', vs(rng.choice(['zz', 'qq', '#', 'Z9']))]]
     raise ValueError(suffix)
+
+
+def gen_same_attr_case(rng):
+    """aimed: two or three keywords on ONE attribute in one call (a range `x_ge_ .. x_le_`, a pattern with an exception
+    `name_like_ .. name_not_like_`, ...), all satisfied by one chosen task: each keyword is a test of its own"""
+    forest = gen_forest(rng)
+    nodes = list(all_nodes(forest))
+    pm = parent_map(forest)
+    for _ in range(30):
+        target = rng.choice(nodes)
+        par = pm[target['o']]
+        attr = rng.choice(['id', 'name', 'name', 'resource', 'estimate', 'spent'] + [k for k, _ in target['attrs']])
+        v = node_view(target, par, attr)
+        if v is not None:
+            break
+    else:
+        attr, v = 'id', node_view(target, par, 'id')
+    if v[0] == 's':
+        pool = [['_like_', '_not_like_'], ['_like_', '_not_like_'], ['_not_like_', '_like_'], ['_like_', '_not_like_', '_ne_'],
+                ['_ge_', '_le_'], ['_like_', '_not_in_'], ['_not_like_', '_in_'], ['_like_', '_not_like_', '_is_not_none_']]
+    else:
+        pool = [['_ge_', '_le_'], ['_gt_', '_lt_'], ['_le_', '_ge_', '_ne_'], ['_in_', '_not_in_'], ['_ne_', '_in_'], ['_gt_', '_le_']]
+    fs = [filter_for_attr(rng, attr, sfx, v) for sfx in rng.choice(pool)]
+    free = rng.random() < 0.2
+    r = rng.random()
+    if r < 0.6 or free:
+        op = ['query', ['all'], None, fs]
+    elif r < 0.8:
+        k, val = gen_assign(rng)
+        op = ['assign', ['query', ['all'], None, fs], k, val]
+    else:
+        op = ['wbs_remove_all', None, fs]
+    return {'free': free, 'forest': forest, 'op': op}
 
 
 def parent_map(forest):
@@ -830,6 +869,9 @@ def run(ctx):
     ctx.coverage_partial = partial_order_stream(ctx)
     n = 3000 if ctx.tier == "quick" else 40000
     cases = list(CORPUS) + [gen_case(ctx.rng) for _ in range(n)]
+    import random as _random
+    rng2 = _random.Random('C18/same-attribute/%s' % ctx.seed)
+    cases += [gen_same_attr_case(rng2) for _ in range(max(20, n // 15))]
     obs, codes = evaluate(ctx, cases)
     distinct = set()
     dist = {'op': {}, 'outcome': {}, 'filter_kind': {}, 'selection': {'empty': 0, 'all': 0, 'proper_subset': 0},
